@@ -80,8 +80,11 @@ def main():
     if hasattr(module, 'preload'):
         module.preload()
     regress_files = sorted(glob.glob(os.path.join(here, 'regress', prop, '*.json')))
-    open_replays = {os.path.abspath(os.path.join(here, e['replay'])): e
-                    for e in known_open if e.get('replay')}
+    open_replays = {}
+    for e in known_open:
+        paths = e.get('replay') or []
+        for rp in ([paths] if isinstance(paths, str) else paths):
+            open_replays[os.path.abspath(os.path.join(here, rp))] = e
     n_regress = 0
     known_lines = []
     for path in regress_files:
@@ -96,9 +99,11 @@ def main():
         entry = open_replays.get(os.path.abspath(path))
         if entry is not None:
             if viol is not None:
-                known_lines.append('KNOWN-FINDING: property=%s %s: %s' % (prop, entry['id'], entry['what']))
+                line = 'KNOWN-FINDING: property=%s %s: %s' % (prop, entry['id'], entry['what'])
+                if line not in known_lines:
+                    known_lines.append(line)
             else:
-                print('note: known finding %s no longer reproduces' % entry['id'])
+                print('note: known finding %s no longer reproduces on %s' % (entry['id'], os.path.basename(path)))
         elif rec.get('expect') == 'violation':
             # sensitivity self-test: a stored case that must be *rejected* by the oracle
             pass
